@@ -12,5 +12,6 @@ func TestMain(m *testing.M) {
 		"C14sio": C14sio,
 		"C15":    C15,
 		"C13sio": C13sio,
+		"C09sio": C09sio,
 	})
 }
